@@ -25,15 +25,16 @@ Dir(rw) == IF rw = 0 THEN "R" ELSE "W"
 (* waiters registered and not yet told, on descriptor fd and direction d, other than thread x *)
 RegOn(fd, d, x) == \E u \in DOMAIN wt : u # x /\ wt[u] = "reg" /\ call[u] = <<fd, d>>
 B(x) == IF x THEN 1 ELSE 0
-ArmedOK == \A u \in DOMAIN wt : wt[u] = "reg" =>
+ArmedOKx(x) == \A u \in DOMAIN wt \ {x} : wt[u] = "reg" =>
               LET fd == call[u][1] IN fd \in DOMAIN kreg /\ kreg[fd].armed /\ (IF call[u][2] = "R" THEN kreg[fd].r ELSE kreg[fd].w) = 1
+ArmedOK == ArmedOKx(0)
 Reset == Ev("Reset") /\ kreg' = Empty /\ call' = Empty /\ wt' = Empty
 Inv == /\ Ev("Inv") /\ ArmedOK /\ call' = Put(call, R.t, <<R.ep, Dir(R.rw)>>) /\ wt' = Del(wt, R.t) /\ UNCHANGED kreg
 Sys == /\ Ev("Sys") /\ ArmedOK
        /\ (R.t \in DOMAIN wt) => wt[R.t] = "woken"                      \* resumed only by an event for its descriptor and direction
        /\ wt' = IF R.r = -1 /\ R.en = 11 THEN Put(wt, R.t, "want") ELSE Del(wt, R.t)
        /\ UNCHANGED <<kreg, call>>
-Resp == /\ Ev("Resp") /\ ArmedOK /\ wt' = Del(wt, R.t) /\ call' = Del(call, R.t) /\ UNCHANGED kreg
+Resp == /\ Ev("Resp") /\ ArmedOKx(R.t) /\ wt' = Del(wt, R.t) /\ call' = Del(call, R.t) /\ UNCHANGED kreg
 Ctl == /\ Ev("Ctl")
        /\ IF R.r # 0 THEN UNCHANGED <<kreg, wt>>                          \* a failed call changes nothing (MOD -> ENOENT -> ADD follows)
           ELSE IF R.op = "del" THEN /\ ~RegOn(R.fd, "R", 0) /\ ~RegOn(R.fd, "W", 0)
